@@ -180,8 +180,20 @@ def run_shard(ctx: Ctx) -> None:
         st.randoms(use_true_random=False),
     )
     hyp_run(ctx, strat, body, ctx.n(1500, 30000))
+    # module trees edited in place and re-loaded by the same process: the tree must be the image of the text on disk NOW
+    from props import c20
+
+    c20.run_sessions(ctx, 240, 4000)
+
+
+def replay_session(c: Dict[str, Any]) -> Optional[str]:
+    from props import c20
+
+    return c20.check_session(unpickle_b64(c["tree_pickle"]), [tuple(x) for x in c["steps"]])
 
 
 def replay(case: Dict[str, Any]) -> Optional[str]:
+    if case.get("kind") == "session":
+        return replay_session(case)
     d = unpickle_b64(case["schema_pickle"])
     return check_text(d, case["text"], "replay")
